@@ -32,7 +32,11 @@ vfps::FokkerPlanckMap::FokkerPlanckMap( std::shared_ptr<PhaseSpace> in
     const interpol_t e1_6d = e1/(interpol_t(6)*in->getDelta(1));
     const interpol_t e1_d2 = e1/(in->getDelta(1)*in->getDelta(1));
 
-    const meshaxis_t ycenter = in->getAxis(1)->zerobin();
+    // row of zero energy (where the four-point stencil changes sides);
+    // on a shifted grid it may lie outside the rows the loops below may fill
+    const meshaxis_t ycenter = std::min( std::max( in->getAxis(1)->zerobin()
+                                                 , static_cast<meshaxis_t>(1))
+                                       , static_cast<meshaxis_t>(_ysize-2));
 
     switch (dt) {
     case DerivationType::two_sided:
